@@ -313,4 +313,97 @@ def schurSolve (J : Mat) (r : Vec) (n : Nat) (prows srows pcols scols : List Nat
     | none => none
     | some xp => some (expandStored sp.stored xp)
 
+/-! ## The calls as a state machine (one `EquationSystem` instance, any history of calls) -/
+
+inductive SplitErr where
+  | valueError
+  | assertionError
+deriving DecidableEq
+
+/-- the request part of `assemble_schur_complement_system`, error branches in the order of the code:
+    `_parse_equations`, `_gridbased_equation_complement` (ValueError), the three non-emptiness
+    assertions, `sps.vstack([])` (ValueError), the squareness assertion -/
+def splitLists (eqs : List EqLayout) (vars : List Var) (req : EqReq) (items : List VarItem) :
+    Except SplitErr (List Nat × List Nat × List Nat × List Nat) :=
+  if !parseOk eqs req then .error .valueError else
+  if !complementOk eqs req then .error .valueError else
+  if numPrimaryEqs req 0 eqs == 0 then .error .assertionError else
+  if (primCols (parseVars (varBlocks 0 0 vars) items)).length == 0 then .error .assertionError else
+  if (secCols (varBlocks 0 0 vars) (parseVars (varBlocks 0 0 vars) items)).length == 0 then
+    .error .assertionError else
+  if numSecBlocks req 0 eqs == 0 then .error .valueError else
+  if (secRows req eqs).length
+      != (secCols (varBlocks 0 0 vars) (parseVars (varBlocks 0 0 vars) items)).length then
+    .error .assertionError else
+  .ok (primRows req 0 0 eqs, secRows req eqs, primCols (parseVars (varBlocks 0 0 vars) items),
+    secCols (varBlocks 0 0 vars) (parseVars (varBlocks 0 0 vars) items))
+
+/-- state of the instance as far as the Schur methods are concerned -/
+structure MState where
+  /-- full system at the stored iterate -/
+  J : Mat
+  r : Vec
+  /-- `_Schur_complement`: outer `none` = never assembled, inner `none` = assembled with a singular
+      block (the code then keeps garbage; the model keeps nothing) -/
+  stored : Option (Option Stored)
+  /-- reduced system returned by the last successful assembly -/
+  last : Option (Mat × Vec)
+  /-- ghost: the full system the stored data was assembled from (it differs from `J, r` after a
+      change of the iterate, after a failing call, or when the `state` argument was used) -/
+  sysAt : Mat × Vec
+
+inductive MOp where
+  /-- new iterate: the full system changes, the stored Schur data does not -/
+  | setSystem (J : Mat) (r : Vec)
+  /-- `assemble_schur_complement_system`; `sys` = the full system at the `state` argument, if given -/
+  | split (req : EqReq) (items : List VarItem) (sys : Option (Mat × Vec))
+  /-- solve the reduced system of the last successful assembly exactly and expand -/
+  | expandSolve
+  /-- `expand_schur_complement_solution(x)` -/
+  | expand (x : Vec)
+
+inductive MOut where
+  | done
+  | splitErr (e : SplitErr)
+  | singular
+  | assembled
+  | valueError
+  | skip
+  | vec (X : Vec)
+deriving DecidableEq
+
+def mstep (eqs : List EqLayout) (vars : List Var) (st : MState) : MOp → MState × MOut
+  | .setSystem J r => ({ st with J := J, r := r }, .done)
+  | .split req items sys =>
+    match splitLists eqs vars req items with
+    | .error e => (st, .splitErr e)   -- a failing call leaves `_Schur_complement` untouched
+    | .ok (prows, srows, pcols, scols) =>
+      let Jr := sys.getD (st.J, st.r)
+      match assembleSplit Jr.1 Jr.2 (totalDofs vars) prows srows pcols scols with
+      | none => ({ st with stored := some none, last := none }, .singular)
+      | some sp =>
+        ({ st with stored := some (some sp.stored), last := some (sp.S, sp.rhs), sysAt := Jr },
+          .assembled)
+  | .expandSolve =>
+    match st.stored, st.last with
+    | none, _ => (st, .valueError)
+    | some none, _ => (st, .skip)
+    | some (some _), none => (st, .skip)
+    | some (some s), some (S, rhs) =>
+      match solveReduced S rhs s.pcols.length with
+      | none => (st, .skip)
+      | some xp => (st, .vec (expandStored s xp))
+  | .expand x =>
+    match st.stored with
+    | none => (st, .valueError)
+    | some none => (st, .skip)
+    | some (some s) =>
+      if x.length != s.pcols.length then (st, .valueError) else (st, .vec (expandStored s x))
+
+def mrun (eqs : List EqLayout) (vars : List Var) (st : MState) : List MOp → MState
+  | [] => st
+  | op :: ops => mrun eqs vars (mstep eqs vars st op).1 ops
+
+def MState.init : MState := ⟨[], [], none, none, ([], [])⟩
+
 end PorepyVerif.C07
